@@ -72,8 +72,13 @@ func victimView(b *Bridge, p principal) map[string]string {
 		f2, _ := app.PalomaKeeper.LightNodeClientFeegranter(ctx)
 		v["paloma/lightnode-cfg"] = fmt.Sprint(f1, f2)
 		v["tokenfactory/params"] = fmt.Sprint(app.TokenFactoryKeeper.GetParams(ctx))
+		// bridge bindings of denominations that are not factory tokens (only governance can set those)
 		dn, _ := app.SkywayKeeper.GetAllERC20ToDenoms(ctx)
-		v["skyway/erc20-mappings"] = fmt.Sprint(len(dn))
+		for _, m := range dn {
+			if !strings.HasPrefix(m.Denom, "factory/") {
+				v["skyway/binding/"+m.ChainReferenceId+"/"+m.Denom] = m.Erc20
+			}
+		}
 		return v
 	}
 	accStr := p.acc.String()
@@ -203,6 +208,14 @@ func victimView(b *Bridge, p principal) map[string]string {
 	for _, d := range app.TokenFactoryKeeper.GetDenomsFromCreator(ctx, accStr) {
 		md, _ := app.TokenFactoryKeeper.GetAuthorityMetadata(ctx, d)
 		v["tokenfactory/created/"+d] = md.Admin
+		// the token's bridge binding, in both directions (which remote token mints / burns this denom)
+		for _, chain := range b.Order {
+			if erc20, err := app.SkywayKeeper.GetERC20OfDenom(ctx, chain, d); err == nil && erc20 != nil {
+				v["skyway/binding/"+chain+"/"+d] = erc20.GetAddress().Hex()
+				back, _ := app.SkywayKeeper.GetDenomOfERC20(ctx, chain, *erc20)
+				v["skyway/binding-of/"+chain+"/"+erc20.GetAddress().Hex()] = back
+			}
+		}
 	}
 	if lic, err := app.PalomaKeeper.GetLightNodeClientLicense(ctx, accStr); err == nil {
 		v["paloma/licence"] = lic.Amount.String()
@@ -316,6 +329,10 @@ func substitute(m proto.Message, from, to idForms) (proto.Message, int) {
 				n++
 			case s == from.valoper:
 				v.SetString(to.valoper)
+				n++
+			case from.acc != "" && strings.Contains(s, from.acc):
+				// the identity embedded in a longer string (factory/<creator>/<sub> denominations)
+				v.SetString(strings.ReplaceAll(s, from.acc, to.acc))
 				n++
 			default:
 				for c, a := range from.eth {
